@@ -87,6 +87,7 @@ CandsOf(s) ==
          ELSE {})
    \cup (IF InPlace /\ s.gen > 0 /\ ~s.dirty
          THEN {[a |-> "ModifyInPlace", p |-> p, blob |-> b] : p \in Known(s.iso), b \in UseBlobs} ELSE {})
+   \cup (IF s.npvd < 3 THEN {[a |-> "DuplicatePvd"]} ELSE {})
    \cup {[a |-> "AddSymlink", iso |-> t[1], jol |-> NoPath, udf |-> t[3], t |-> tg] :
             tg \in Targets, t \in {u \in tri : u[2] = NoPath}}
 
